@@ -7,8 +7,23 @@ Open Scope res_scope.
 
 Lemma udp_class_table sp dp : udp_class sp dp = first_rule sp dp udp_rules.
 Proof.
-  unfold udp_class, udp_rules, first_rule, rule_matches.
+  rewrite udp_class_chain_eq.
+  unfold udp_class_chain, udp_rules, first_rule, rule_matches.
   repeat (match goal with |- context [?a =? ?b] => destruct (a =? b) end; cbn [orb]; try reflexivity).
+Qed.
+
+(* the model's EtherType and IP-protocol rows against the reference tables *)
+Definition l3_id (x : l3) : N := match x with L3IP4 => 4 | L3IP6 => 5 | L3ARP => 3 | L3Leaf id => id end.
+Lemma ethertype_rows_table et : lookup_row et ethertype_rows = option_map l3_id (lookup et ethertype_table).
+Proof.
+  unfold ethertype_rows, ethertype_table, lookup_row, lookup.
+  repeat (match goal with |- context [et =? ?k] => destruct (et =? k) end; try reflexivity).
+Qed.
+Definition l4_id (x : l4) : N := match x with L4UDP => 8 | L4TCP => 9 | L4ICMP id => id | L4Leaf id => id end.
+Lemma ipproto_rows_table p : lookup_row p ipproto_rows = option_map l4_id (lookup p ipproto_table).
+Proof.
+  unfold ipproto_rows, ipproto_table, lookup_row, lookup.
+  repeat (match goal with |- context [p =? ?k] => destruct (p =? k) end; try reflexivity).
 Qed.
 
 Lemma ihl_eq x : N.shiftl (N.land x 15) 2 = 4 * (x mod 16).
@@ -46,7 +61,7 @@ Lemma l4_agrees fx b f proto :
   agrees (parse_proto fx (cs b) f proto) (ref_l4 (proj f) proto (skipn (f_offP f) b) (f_offP f)).
 Proof.
   intros (HU & HT & Hsp & Hdp) H0 H1 Htcp. pose proof (wf_cs b) as Hwf.
-  unfold parse_proto, ref_l4, ipproto_table, lookup.
+  rewrite parse_proto_chain_eq. unfold parse_proto_chain, ref_l4, ipproto_table, lookup.
   destruct (proto =? 17).
   { rewrite payload_view_pos by (cbn; lia). cbn [bind set_id f_offP cs arr len].
     unfold udp_is_valid, src_port, dst_port. cbn [len]. rewrite skipn_length.
@@ -282,7 +297,7 @@ Theorem eq_ref_canon c b :
 Proof.
   intros Hb Hn Hk. apply known_C02_none in Hk. destruct Hk as (Ki & Kt & K6 & Ktcp).
   pose proof (wf_cs b) as Hwf.
-  unfold parse, ref_decode, ether_is_valid. cbn [len cs].
+  rewrite parse_chain_eq. unfold parse_chain, ref_decode, ether_is_valid. cbn [len cs].
   destruct (Nat.leb_spec 14 (List.length b)) as [Hlen|Hlen]; destruct (Nat.ltb_spec (List.length b) 14); try lia;
     cbn [bind agrees]; [|reflexivity].
   unfold ether_src, ether_dst, ether_header_len, ether_type, bytes_at. unfold cs.
